@@ -4,12 +4,12 @@ From PV Require Import Lib.Base Lib.Utf8 Syntax.RGrammar Syntax.Code Model.PStat
 Local Open Scope nat_scope.
 
 Section RefParse.
-  Variable c : cfg.
-  Let d := cData c.
+  Variable c : rdata.
+  Let d := rData c.
 
   (* "file:line:col (offset): rule NAME" *)
   Definition ref_prefix (pos : position) (R : option rule) : bytes :=
-    let fn := o_filename (cO c) in
+    let fn := o_filename (rO c) in
     let b2 := match fn with [] => [] | _ => fn ++ b_colon end in
     let b3 := b2 ++ dec_nat (line pos) ++ b_colon ++ dec_nat (col pos)
                  ++ [32%N; 40%N] ++ dec_nat (offset pos) ++ [41%N] in
@@ -79,20 +79,20 @@ Section RefParse.
   Definition mu0 : rmu := mkMu [] [] 0%N.
 
   Definition rparse (fuel : nat) : routcome :=
-    match cG c with
+    match rG c with
     | [] => RReturned VNil (dedupe [ref_perr msg_no_rule pos0 None []]) mu0
     | _ =>
-        match entry_name c with
+        match entry_of (rO c) (rG c) with
         | None => RDiverged
         | Some en =>
-            match find_rule en (cG c) with
+            match find_rule en (rG c) with
             | None => RReturned VNil (dedupe [ref_perr msg_invalid_entrypoint pos0 None []]) mu0
             | Some r =>
                 let m0 := land c None 0 mu0 in
                 match reval c fuel [] (Some r) false (r_expr r) [] (mkSig 0 []) m0 with
                 | ROut => RDiverged
                 | RPanic pv m pos R =>
-                    if o_recover (cO c)
+                    if o_recover (rO c)
                     then RReturned VNil (dedupe (errs_of_log (log (RErr pv pos R) m).(u_log))) (log (RErr pv pos R) m)
                     else RPanicked pv m
                 | ROk v _ _ m => RReturned v (dedupe (errs_of_log (u_log m))) m
